@@ -85,14 +85,15 @@ KE == <<195, 169>>
 Seqs(S, n) == [1..n -> S]
 D1(S) == {Arr(a) : a \in Seqs(S, 0) \cup Seqs(S, 1) \cup Seqs(S, 2)}
          \cup {Map(<<KA>>, v) : v \in Seqs(S, 1)} \cup {Map(<<>>, <<>>)}
-D1x   == {Map(<<KA, KB>>, <<One, Null>>), Map(<<KA, KB>>, <<Null, One>>), Map(<<KB, KA>>, <<Null, Bool(FALSE)>>),
-          Map(<<KE>>, <<Str(<<>>)>>), Map(<<<<>>>>, <<Null>>)}
-         \cup (IF Wide THEN {Arr(a) : a \in Seqs({Null, One}, 3)} \cup {Map(<<KA, KB>>, <<One, One>>)} ELSE {})
+D1x   == {Map(<<KA, KB>>, <<One, Null>>), Map(<<KE>>, <<Str(<<>>)>>), Map(<<<<>>>>, <<Null>>)}
+         \cup (IF Wide THEN {Arr(a) : a \in Seqs({Null, One}, 3)} \cup {Map(<<KA, KB>>, <<One, One>>), Map(<<KA, KB>>, <<Null, One>>),
+                                                                      Map(<<KB, KA>>, <<Null, Bool(FALSE)>>)} ELSE {})
 Inner == {Arr(<<>>), Map(<<>>, <<>>), Arr(<<Null>>), Arr(<<One>>), Map(<<KA>>, <<Null>>)}
          \cup (IF Wide THEN {Arr(<<Str(<<97>>)>>), Arr(<<Null, One>>), Map(<<KA>>, <<One>>)} ELSE {})
+Inner2 == IF Wide THEN Inner ELSE {Arr(<<>>), Map(<<>>, <<>>), Arr(<<One>>)}
 D2 == {Arr(<<x>>) : x \in Inner} \cup {Map(<<KA>>, <<x>>) : x \in Inner}
-      \cup {Arr(<<x, Null>>) : x \in Inner} \cup {Arr(<<Bool(TRUE), x>>) : x \in Inner}
-      \cup {Arr(<<Arr(<<x>>)>>) : x \in {Arr(<<>>), Map(<<KA>>, <<Null>>)}}
+      \cup {Arr(<<x, Null>>) : x \in Inner2} \cup {Arr(<<Bool(TRUE), x>>) : x \in Inner2}
+      \cup {Arr(<<Arr(<<x>>)>>) : x \in {Arr(<<>>)} \cup (IF Wide THEN {Map(<<KA>>, <<Null>>)} ELSE {})}
       \cup (IF Wide THEN {Map(<<KA, KB>>, <<Arr(<<>>), Map(<<>>, <<>>)>>), Arr(<<One, Map(<<KA>>, <<One>>)>>)} ELSE {})
 IndefNested == {Arr(<<Str(<<97, 98>>)>>), Map(<<KB>>, <<Bool(FALSE)>>), Arr(<<Bin(<<104, 105>>), Null>>)}
 Letters(n) == [i \in 1..n |-> <<96 + i>>]
@@ -129,10 +130,11 @@ BerUniverse(P) ==
                         \cup {Bin(Rep(n, 65)) : n \in {0, 1, 127, 128, 256}} \cup {Bin(<<104, 105>>), Bin(<<0, 1, 127>>)}
                         \cup {BerStr(19, <<97, 32, 98>>), BerStr(22, <<97, 64, 98>>), BerStr(22, <<>>)}
                         \cup {BerOid(<<1, 2, 840, 113549>>), BerOid(<<2, 5, 4, 3>>), BerOid(<<0, 39>>), BerOid(<<1, 3, 6, 1, 4, 1, 311, 21, 20>>)}
-    ELSE D1S({Null, One, Str(<<97>>)}) \cup {Arr(<<x>>) : x \in D1S({Null, One})} \cup {Arr(<<x, Bool(TRUE)>>) : x \in D1S({One})}
+    ELSE D1S({Null, One, Str(<<97>>)}) \cup {Arr(<<x>>) : x \in {Arr(<<>>), Arr(<<One>>)}} \cup {Arr(<<Arr(<<>>), Str(<<>>)>>)}
          \cup {BerSet(<<>>), BerSet(<<One, Null>>), BerCtx(0, <<One>>), BerCtx(3, <<>>), BerCtx(31, <<Null>>), BerCtx(200, <<One, Str(<<97>>)>>),
-               Arr(<<BerCtx(0, <<>>), BerSet(<<One>>)>>), Arr(<<BerOid(<<2, 5, 4, 3>>), BerStr(19, <<97>>)>>),
-               Arr(<<Bin(<<104, 105>>), Null>>), Arr(<<Arr(<<Arr(<<>>)>>)>>), Arr(<<Str(Rep(200, X))>>)}
+               Arr(<<BerCtx(0, <<>>), BerSet(<<>>)>>), Arr(<<Arr(<<Arr(<<>>)>>)>>), Arr(<<Str(Rep(200, X))>>)}
+         \cup (IF Wide THEN {Arr(<<Bin(<<104, 105>>)>>), Arr(<<Arr(<<One>>), Bool(TRUE)>>), Arr(<<Arr(<<One, One>>)>>),
+                             Arr(<<BerOid(<<2, 5, 4, 3>>), BerStr(19, <<97>>)>>), Arr(<<BerCtx(0, <<>>), BerSet(<<One>>)>>)} ELSE {})
 
 Universe(P) ==
     CASE Format = "msgpack" ->
@@ -170,7 +172,7 @@ EncOf(P, v) ==
       [] Format = "cbor"    -> IF P = "atoms" \/ v \in IndefNested THEN CBa!Enc(v) ELSE CBn!Enc(v)
       [] Format = "bencode" -> BC!Enc(v)
       [] Format = "bson"    -> BS!Enc(v)
-      [] Format = "asn1_ber" -> IF P = "atoms" \/ v = Arr(<<Bin(<<104, 105>>), Null>>) THEN BRa!Enc(v) ELSE BRn!Enc(v)
+      [] Format = "asn1_ber" -> IF P = "atoms" \/ v = Arr(<<Bin(<<104, 105>>)>>) THEN BRa!Enc(v) ELSE BRn!Enc(v)
 ReprOf(v) ==
     CASE Format = "msgpack" -> MP!Repr(v)
       [] Format = "cbor"    -> CBn!Repr(v)
